@@ -84,6 +84,8 @@ class Result:
     symex_s: float = 0.0
     wall_s: float = 0.0
     solver_calls: int = 0
+    vccs: int = 0             # verification conditions CBMC generated for this query (after simplification)
+    steps: int = 0            # symbolic execution steps ("size of program expression")
     log_path: str = ""
     replay: dict | None = None
 
@@ -110,7 +112,11 @@ def parse_kani_output(text: str):
     solver_s = sum(float(x) for x in re.findall(r"Runtime Solver: ([0-9.eE+-]+)s", text))
     symex_s = sum(float(x) for x in re.findall(r"Runtime Symex: ([0-9.eE+-]+)s", text))
     calls = len(re.findall(r"SAT checker: instance is", text))
-    return checks, verdict, vars_, clauses, solver_s, symex_s, calls
+    m = re.search(r"Generated (\d+) VCC\(s\), (\d+) remaining after simplification", text)
+    vccs = int(m.group(2)) if m else 0
+    m = re.search(r"size of program expression: (\d+) steps", text)
+    steps = int(m.group(1)) if m else 0
+    return checks, verdict, vars_, clauses, solver_s, symex_s, calls, vccs, steps
 
 
 def is_machinery_failure(name: str, desc: str) -> bool:
@@ -221,9 +227,9 @@ class KaniRunner:
             text = logf.read_text(errors="replace")
         finally:
             pool.put(crate)
-        checks, verdict, v, c, solver_s, symex_s, calls = parse_kani_output(text)
+        checks, verdict, v, c, solver_s, symex_s, calls, vccs, steps = parse_kani_output(text)
         r = Result(q, "inconclusive", sat_vars=v, sat_clauses=c, solver_s=solver_s, symex_s=symex_s, wall_s=wall,
-                   solver_calls=calls, log_path=str(logf))
+                   solver_calls=calls, vccs=vccs, steps=steps, log_path=str(logf))
         r.reach = any(s == "SATISFIED" and d == "REACH" for (_, s, d, _) in checks)
         failures = [(n, d, l) for (n, s, d, l) in checks if s == "FAILURE"]
         oom = re.search(r"ran out of memory|Out of memory|memory exhausted|std::bad_alloc", text) is not None
@@ -409,6 +415,7 @@ def write_evidence(prop: str, tier: str, seed: int, results: list[Result], wall:
             "config": r.query.config, "result": r.status, "reason": r.reason,
             "sat_variables": r.sat_vars, "sat_clauses": r.sat_clauses, "solver_calls": r.solver_calls,
             "solver_s": round(r.solver_s, 2), "symex_s": round(r.symex_s, 2), "wall_s": round(r.wall_s, 1),
+            "verification_conditions": r.vccs, "symex_steps": r.steps,
             "failed_checks": sorted(set(d for d, _ in r.failed_checks)),
         })
     m_results = m_results or []
@@ -417,7 +424,16 @@ def write_evidence(prop: str, tier: str, seed: int, results: list[Result], wall:
     m_pass = [m for m in m_results if m.get("result") == "pass"]
     funcs = sorted({f for r in results for f in r.query.functions} | {f for m in m_results for f in m.get("functions", [])})
     stubs = sorted({f"{o} -> {s}" for r in results for (o, s) in r.query.stubs})
+    replayed = len([r for r in results if r.replay is not None]) + len([m for m in m_results if m.get("native_replay")])
     cov = {
+        # model_checking keys. The state space of a bounded model checking query is symbolic, so the honest counts are: "states" = verification
+        # conditions that remained after CBMC's simplification (every assertion / panic / bounds / overflow / unwinding check instance on every
+        # explored path) plus the paths engine M enumerated; "transitions" = symbolic execution steps of CBMC (size of the program expression)
+        # plus the SMT queries engine M discharged; "traces_validated_against_impl" = solver counterexamples of this run that were replayed
+        # natively against the real code (0 on a tree where nothing fails).
+        "states": max(1, sum(r.vccs for r in results) + sum(int(m.get("paths", 0)) for m in m_results)),
+        "transitions": max(1, sum(r.steps for r in results) + sum(int(m.get("solver_queries", 0)) for m in m_results)),
+        "traces_validated_against_impl": replayed,
         "evaluations": len(results) + len(m_results),
         "distinct_nontrivial": distinct + len({m["name"] for m in m_pass}),
         "rule": "one evaluation = one solver query (a Kani harness = CBMC/CaDiCaL over all symbolic values of one concrete shape, or one "
